@@ -48,14 +48,8 @@ def _only_raises(stmts: List[ast.stmt], mi=None, depth: int = 0) -> bool:
 PURE_CALLS = {"len", "bool", "int", "float", "abs", "min", "max", "tuple", "isinstance", "sum"}
 
 
-def _pure_view(body, ci, name) -> bool:
-    if len(body) != 1 or not isinstance(body[0], ast.Return) or body[0].value is None:
-        return False
-    twin = "_" + name
-    for n in ast.walk(ci.node):
-        if isinstance(n, ast.Attribute) and n.attr == twin:
-            return False  # a private twin exists: this is a stored property and must be transparent
-    for n in ast.walk(body[0].value):
+def _pure_expr(e) -> bool:
+    for n in ast.walk(e):
         if isinstance(n, ast.Call):
             f = n.func
             if not (isinstance(f, ast.Name) and f.id in PURE_CALLS):
@@ -63,6 +57,32 @@ def _pure_view(body, ci, name) -> bool:
         if isinstance(n, (ast.Lambda, ast.NamedExpr, ast.Yield, ast.YieldFrom, ast.Await, ast.ListComp, ast.GeneratorExp)):
             return False
     return True
+
+
+def _pure_stmts(stmts) -> bool:
+    for st in stmts:
+        if isinstance(st, ast.Return):
+            if st.value is not None and not _pure_expr(st.value):
+                return False
+        elif isinstance(st, ast.If):
+            if not _pure_expr(st.test) or not _pure_stmts(st.body) or not _pure_stmts(st.orelse):
+                return False
+        elif isinstance(st, ast.Pass) or (isinstance(st, ast.Expr) and isinstance(st.value, ast.Constant)):
+            continue
+        else:
+            return False
+    return True
+
+
+def _pure_view(body, ci, name) -> bool:
+    """A getter that only tests and returns pure expressions of other fields, for a name without a private twin."""
+    if not body or not any(isinstance(x, ast.Return) for x in ast.walk(ast.Module(body=list(body), type_ignores=[]))):
+        return False
+    twin = "_" + name
+    for n in ast.walk(ci.node):
+        if isinstance(n, ast.Attribute) and n.attr == twin:
+            return False  # a private twin exists: this is a stored property and must be transparent
+    return _pure_stmts(body)
 
 
 def check_transparent_properties(rep, repo: Repo, pre: str = "") -> int:
